@@ -2,6 +2,7 @@ SPECIFICATION SSpec
 CONSTANTS
   Repaired = FALSE
   MaxStyles = 3
+  UseAligns = TRUE
   Depth = 3
   OwnFields <- MCOwn
   BorderFields <- MCBorder
